@@ -55,7 +55,8 @@ def run(ctx, rep):
         rep.require(rt is want_len, "table", "len", wh(fn["span"]), "len() = data.len() / size_for(class)", "ParsingTable::len returns %s" % pp(rt))
     fn, an, rt = ret_of("parse::ParsingTable::is_empty")
     if fn:
-        rep.require(rt is T.bin("Eq", want_len, T.const("usize", 0), "usize"), "table", "is_empty", wh(fn["span"]), "is_empty() = (len() == 0)",
+        # len() == 0, or the same condition without the division: fewer bytes than one entry (size_for >= 1 for every entry type)
+        rep.require(rt is T.bin("Eq", want_len, T.const("usize", 0), "usize") or rt is T.bin("Lt", L, size, "usize"), "table", "is_empty", wh(fn["span"]), "is_empty() = (len() == 0)",
                     "ParsingTable::is_empty returns %s, not len() == 0" % pp(rt))
     # iter / into_iter / constructors
     want_iter = lambda e, c, d: T.agg("adt", "parse::ParsingIterator", 0, "ParsingIterator",
@@ -130,6 +131,12 @@ def run(ctx, rep):
                 continue
             if t.op == "agg" and t.args[3] == "None":
                 ok = an.truth(st.facts, T.bin("Eq", T.length(idata), T.const("usize", 0), "usize")) is True and an.read(st, off_lv) is ioff
+                if not ok and an.read(st, off_lv) is ioff:
+                    # ... or for a cursor at / past the end of the data: every in-crate entry type starts with a read of at least one
+                    # byte at the cursor (C02's decode-reads rule: the reads tile [0, size) from the cursor, size >= 1), which fails there
+                    # without moving the cursor (C04) - the parse would have ended the iteration the same way
+                    from ..prover import Prover
+                    ok = Prover(an).le(T.length(idata), ioff, st.facts)
                 rep.require(ok, "iterator", "next:none-guard", w, "early None only for empty data, offset untouched",
                             "ParsingIterator::next returns None early under a condition other than empty data (iteration may stop before len() items)")
             elif t.op == "agg" and t.args[3] == "Some" and t.args[4][0] is T.payload(R, "Ok") and ("var", R, "Ok") in st.facts:
